@@ -25,6 +25,11 @@ var (
 
 // query builds the SMT-LIB text for one obligation.
 func (u *Unit) query(ob *Obligation, forCVC bool, withModel bool) string {
+	return u.queryV(ob, forCVC, withModel, false)
+}
+
+// queryV: macroAt selects the quantifier-free definition of slice element access.
+func (u *Unit) queryV(ob *Obligation, forCVC bool, withModel bool, macroAt bool) string {
 	var b strings.Builder
 	if forCVC || withModel {
 		b.WriteString("(set-option :produce-models true)\n")
@@ -33,6 +38,14 @@ func (u *Unit) query(ob *Obligation, forCVC bool, withModel bool) string {
 		b.WriteString("(set-logic ALL)\n")
 	}
 	for _, d := range u.sorts.decls {
+		b.WriteString(d)
+		b.WriteByte('\n')
+	}
+	ats := u.sorts.atAxioms
+	if macroAt {
+		ats = u.sorts.atMacros
+	}
+	for _, d := range ats {
 		b.WriteString(d)
 		b.WriteByte('\n')
 	}
@@ -126,11 +139,30 @@ func (u *Unit) solve(ob *Obligation, tier string) {
 		t1, t2 = 30*time.Second, 60*time.Second
 	}
 	q := u.query(ob, false, false)
+	if ob.Short {
+		r := runSolver(z3em, q, 3*time.Second)
+		if r.result != "unsat" {
+			r = runSolver(z3new, u.queryV(ob, false, true, true), 4*time.Second)
+		}
+		ob.Result, ob.Solver, ob.Ms, ob.Model = r.result, r.solver, r.ms, r.out
+		return
+	}
+	if ob.Canary {
+		// vacuity canary: only an `unsat` answer is alarming; do not spend time looking for a model
+		r := runSolver(z3em, q, 3*time.Second)
+		if r.result != "unsat" {
+			r = runSolver(z3new, u.queryV(ob, false, false, true), 3*time.Second)
+		}
+		ob.Result, ob.Solver, ob.Ms = r.result, r.solver, r.ms
+		return
+	}
 	// pure E-matching first: answers in milliseconds when the triggers fit, "unknown" otherwise
 	r := runSolver(z3em, q, t1)
 	total := r.ms
 	if r.result != "unsat" {
-		r2 := runSolver(z3new, q, t1)
+		// full z3 on the variant without the access-function axiom: finds proofs by MBQI and, for
+		// failing obligations, models
+		r2 := runSolver(z3new, u.queryV(ob, false, false, true), t1)
 		total += r2.ms
 		r = r2
 	}
@@ -156,7 +188,7 @@ func (u *Unit) solve(ob *Obligation, tier string) {
 	ob.Result, ob.Solver, ob.Ms = r.result, r.solver, total
 	if r.result == "sat" {
 		// fetch a model with values of the unit's inputs
-		mq := u.query(ob, false, true)
+		mq := u.queryV(ob, false, true, true)
 		mr := runSolver(z3new, mq, t1)
 		if mr.result == "sat" {
 			ob.Model = mr.out
